@@ -7,6 +7,8 @@ import Bclv.Proofs.LexRender6
 import Bclv.Proofs.LexRender9
 import Bclv.Proofs.Group9
 import Bclv.Proofs.LexRender10
+import Bclv.Proofs.Leaves1
+import Bclv.Props.C01
 /-!
 # C20 — layout, comments and redundant parentheses never change meaning
 
@@ -213,5 +215,80 @@ theorem optional_semicolon (s : ShS) (ss : ShSs) (ts rest : List TokType) (c : T
     (hs : RdSF false s ts (followOf rest c)) (hrest : RdProgF ss rest c) :
     RdProgF (.cons s ss) (ts ++ .SEMICOLON :: rest) c :=
   semicolon_after_first s ss ts rest c hs hrest
+
+/-! ## redundant parentheses: the same expression, leaves included -/
+
+theorem stripE_eq_eraseE : ∀ (e : Expr), stripE e = eraseE e := by
+  intro e
+  induction e with
+  | lit | const | getLocal | getField | bad => rfl
+  | setLocal s e p ih => simp [stripE, eraseE, ih]
+  | setField i e p ih => simp [stripE, eraseE, ih]
+  | un op e p ih => simp [stripE, eraseE, ih]
+  | bin op a b p iha ihb => simp [stripE, eraseE, iha, ihb]
+  | and a b p iha ihb => simp [stripE, eraseE, iha, ihb]
+  | or a b p iha ihb => simp [stripE, eraseE, iha, ihb]
+
+/-- the tokens consumed between two parser states are determined by the states -/
+theorem skips_unique {a b : List Token} {p q : PState} (h1 : Skips a p q) (h2 : Skips b p q) : a = b := by
+  unfold Skips at h1 h2
+  rw [h1] at h2
+  exact List.append_cancel_right h2
+
+/-- **The operands of an expression's tree are what its operand tokens make of the state**
+(`Proofs/Leaves1`): whatever `expr` consumes without reporting an error, the resolved operands of
+the tree, from left to right, and the constant pool, de-duplication table, locals and depth it
+ends with are `atomsE` — a fold of one function of a token's kind and text — over the literals and
+names among the consumed tokens.  Operators and parentheses contribute nothing. -/
+theorem operands_from_operand_tokens (f : Nat) (p : PState) (hi : GInv p) (hne : NE (expr f p).2)
+    (sk : List Token) (hs : Skips sk p (expr f p).2) :
+    atomsE (atomsOf sk) p.E = (ratoms (expr f p).1, (expr f p).2.E) := by
+  obtain ⟨sk0, hs0, hl⟩ := (expr_leaves f p hi).2 hne
+  rw [skips_unique hs hs0]
+  exact hl
+
+/-- **Redundant parentheses do not change an expression.**  Two accepted renderings of an
+expression whose token kinds read as one common shape (what redundant parentheses around any
+sub-expression leave unchanged: `C01.parentheses_read_the_same`) and whose operand tokens —
+literals and names, in order, by kind and text — are the same, parsed from states with the
+same constant pool, de-duplication table, locals and depth, give the same tree up to the recorded
+positions, hence the same instruction bytes, and end with the same pool, table, locals and
+depth.  (Expression level; for whole programs the shape is proved — `same_reading_same_shape` —
+and the leaves are decided per input by the `layout` stream.) -/
+theorem same_rendering_same_expression (f f' : Nat) (p q : PState) (hp : GInv p) (hq : GInv q)
+    (hnp : NE (expr f p).2) (hnq : NE (expr f' q).2) (sk sk' : List Token)
+    (hs : Skips sk p (expr f p).2) (hs' : Skips sk' q (expr f' q).2)
+    (s : Sh) (h1 : Rd precAssign s (typs sk) 0) (h2 : Rd precAssign s (typs sk') 0)
+    (hat : atomsOf sk = atomsOf sk') (hE : p.E = q.E) :
+    eraseE (expr f p).1 = eraseE (expr f' q).1
+    ∧ (compileE (expr f p).1).map Prod.fst = (compileE (expr f' q).1).map Prod.fst
+    ∧ (expr f p).2.E = (expr f' q).2.E := by
+  have hsh := C01.same_rendering_same_shape f f' p q hp hq hnp hnq sk sk' hs hs' s h1 h2
+  have ha := operands_from_operand_tokens f p hp hnp sk hs
+  have hb := operands_from_operand_tokens f' q hq hnq sk' hs'
+  rw [hat, hE, hb] at ha
+  have hr : ratoms (expr f' q).1 = ratoms (expr f p).1 := congrArg Prod.fst ha
+  have hEE : (expr f' q).2.E = (expr f p).2.E := congrArg Prod.snd ha
+  have he : eraseE (expr f p).1 = eraseE (expr f' q).1 := by
+    rw [← stripE_eq_eraseE, ← stripE_eq_eraseE]
+    exact strip_eq_of_shape_ratoms _ _ hsh hr.symm
+  refine ⟨he, ?_, hEE.symm⟩
+  rw [positions_do_not_reach_code_partial, positions_do_not_reach_code_partial (expr f' q).1, he]
+
+/-- Non-vacuity: `2 + x * 3` and `(2) + ((x) * 3)` with a local `x` — the same operand tokens, and
+the parser returns trees with the same instruction bytes and the same resolved operands. -/
+def exA : List Token := [⟨.INT, [50], [], 1⟩, ⟨.PLUS, [43], [], 3⟩, ⟨.IDENT, [120], [], 5⟩, ⟨.STAR, [42], [], 7⟩,
+  ⟨.INT, [51], [], 9⟩, ⟨.EOF, [], [], 9⟩]
+def exB : List Token := [⟨.LPAREN, [40], [], 1⟩, ⟨.INT, [50], [], 2⟩, ⟨.RPAREN, [41], [], 3⟩, ⟨.PLUS, [43], [], 5⟩,
+  ⟨.LPAREN, [40], [], 7⟩, ⟨.LPAREN, [40], [], 8⟩, ⟨.IDENT, [120], [], 9⟩, ⟨.RPAREN, [41], [], 10⟩, ⟨.STAR, [42], [], 12⟩,
+  ⟨.INT, [51], [], 14⟩, ⟨.RPAREN, [41], [], 15⟩, ⟨.EOF, [], [], 15⟩]
+def exStart (ts : List Token) : PState := (advance { rest := ts, locals := [{ name := [120], depth := 0 }] }).2
+
+example : atomsOf exA.dropLast = atomsOf exB.dropLast
+    ∧ ratoms (expr 40 (exStart exA)).1 = [.const 0, .loc 0, .const 1]
+    ∧ ratoms (expr 40 (exStart exB)).1 = [.const 0, .loc 0, .const 1]
+    ∧ (compileE (expr 40 (exStart exA)).1).map Prod.fst = (compileE (expr 40 (exStart exB)).1).map Prod.fst
+    ∧ (expr 40 (exStart exA)).2.hadError = false ∧ (expr 40 (exStart exB)).2.hadError = false := by
+  decide +kernel
 
 end Bclv.C20
